@@ -11,9 +11,9 @@ import sys
 
 from mc.oracles.misc import ELEMENTS, ORGANIC, IDX, capacity
 
-ATOM_RE = re.compile(r"^\[([=#/\\]?)(\d*)([A-Z][a-z]?)(@{0,2})(?:H(\d))?(?:([+-])([1-9][0-9]*))?\]$", re.ASCII)
-BRANCH_RE = re.compile(r"^\[([=#]?)Branch([123])\]$")
-RING_RE = re.compile(r"^\[(|=|#|[-/\\][-/\\])Ring([123])\]$")
+ATOM_RE = re.compile(r"^\[([=#/\\]?)(\d*)([A-Z][a-z]?)(@{0,2})(?:H(\d))?(?:([+-])([1-9][0-9]*))?\]\Z", re.ASCII)
+BRANCH_RE = re.compile(r"^\[([=#]?)Branch([123])\]\Z")
+RING_RE = re.compile(r"^\[(|=|#|[-/\\][-/\\])Ring([123])\]\Z")
 ORD = {"": 1, "=": 2, "#": 3, "/": 1, "\\": 1, "-": 1}
 
 
